@@ -50,6 +50,11 @@ pub enum Op {
     PushInstruction(u8, Option<usize>),
     PushJump(usize),
     PatchJump(usize, usize),
+    /// conversions that add a new value derived from an existing one (sel): char list / byte list / symbol / number
+    CharListFrom(usize),
+    ByteListFrom(usize),
+    SymbolFrom(usize),
+    NumberFrom(usize),
     /// Basic only
     PushCustom,
     PushExprSymbol(u64, usize),
@@ -352,6 +357,49 @@ fn apply<D: SimData>(d: &mut D, m: &mut Model, op: &Op, out: &mut Outcome) -> Ap
                 }
                 None => return Applied::Violation("C15.table.jump-patch".into(), format!("no jump entry {} of {}", idx, m.jumps.len())),
             }
+        }
+        Op::CharListFrom(sel) | Op::ByteListFrom(sel) | Op::SymbolFrom(sel) | Op::NumberFrom(sel) => {
+            let Some(src) = m.pick(*sel) else { return Applied::Skipped };
+            let src_val = m.vals[&src].clone();
+            // what the conversion yields is C01 / C14 territory; judged here: the call returns the address of a
+            // NEW value of the kind it is named after (unit when a number conversion has no result), and
+            // the source — like everything else — still reads back unchanged (checked by the read-back)
+            if !src_val.all_ascii() {
+                // byte length vs character count of non-ASCII text is C14's subject
+                return Applied::Skipped;
+            }
+            if src_val.size() > 40 {
+                return Applied::Skipped;
+            }
+            // any source kind: a conversion the implementation does not support returns Err (and may stop
+            // half-way); nothing is promised for it, but it must not disturb anything added later or earlier
+            let (res, want, name): (Result<usize, _>, &[GarnishDataType], &str) = match op {
+                Op::CharListFrom(_) => (d.add_char_list_from(src), &[GarnishDataType::CharList], "add_char_list_from"),
+                Op::ByteListFrom(_) => (d.add_byte_list_from(src), &[GarnishDataType::ByteList], "add_byte_list_from"),
+                Op::SymbolFrom(_) => (d.add_symbol_from(src), &[GarnishDataType::Symbol], "add_symbol_from"),
+                _ => (d.add_number_from(src), &[GarnishDataType::Number, GarnishDataType::Unit], "add_number_from"),
+            };
+            let addr = match res {
+                Ok(a) => a,
+                Err(e) => {
+                    if store_full(&e) {
+                        return Applied::Refused;
+                    }
+                    // a conversion the implementation does not support: nothing was promised
+                    out.probe("conversion-returned-err");
+                    return Applied::Skipped;
+                }
+            };
+            let t = d.get_data_type(addr).ok();
+            if !t.map(|t| want.contains(&t)).unwrap_or(false) {
+                return Applied::Violation("C15.conversion.returned-address-kind".into(), format!("{} of {} returned address {} which holds a {:?}, expected {:?}", name, src_val.short(), addr, t, want));
+            }
+            let got = read_val(d, addr);
+            if got.is_bad() {
+                return Applied::Violation("C15.conversion.unreadable".into(), format!("{} of {} returned address {} which reads {}", name, src_val.short(), addr, got.short()));
+            }
+            out.probe("conversion-added-value");
+            added!(addr, got)
         }
         Op::PushCustom | Op::PushExprSymbol(_, _) => return basic_only(d, m, op),
     }
@@ -681,7 +729,18 @@ fn gen_op(rng: &mut Rng, basic: bool) -> Op {
                 Op::PopRegister
             }
         }
-        26 => Op::PushInstruction(rng.below(12) as u8, if rng.chance(1, 2) { Some(rng.below(30)) } else { None }),
+        26 => {
+            if rng.chance(1, 5) {
+                match rng.below(4) {
+                    0 => Op::CharListFrom(rng.below(1000)),
+                    1 => Op::ByteListFrom(rng.below(1000)),
+                    2 => Op::SymbolFrom(rng.below(1000)),
+                    _ => Op::NumberFrom(rng.below(1000)),
+                }
+            } else {
+                Op::PushInstruction(rng.below(12) as u8, if rng.chance(1, 2) { Some(rng.below(30)) } else { None })
+            }
+        }
         _ => {
             if rng.chance(2, 3) {
                 Op::PushJump(rng.below(100))
